@@ -52,5 +52,11 @@ let dispatch = function
     (match spec_word e s p with
      | Some w -> put_int 1; put_nstr (word_at_position e s p); put_nstr w
      | None -> put_int 0; put_nstr (word_at_position e s p); put_int 0)
+  | "disk" ->    (* e text1 text2 pos: a document served from disk, queried before and after the
+                    file changed: each answer is that of the file's CURRENT content *)
+    let e = next_enc () in let t1 = next_str () in let t2 = next_str () in let p = next_pos () in
+    List.iter (fun t ->
+      put_nstr t; put_list put_nstr (lsp_lines t);
+      put_n (offset_at_position e t p); put_nstr (word_at_position e t p)) [t1; t2]
   | c -> failwith ("unknown command " ^ c)
 let () = main_loop dispatch
